@@ -36,8 +36,16 @@ func LoadWordVectors(filepath string) (*Index, error) {
 		return nil, fmt.Errorf("failed to read vocab size: %w", err)
 	}
 
+	const dimension = 100 // GloVe 100d
+
+	// Nothing may be sized from the header before it is checked against the file: every
+	// entry takes at least 2 + 4*dimension bytes, so a larger count cannot be genuine.
+	if maxEntries := remainingEntries(f, 4, 2+4*dimension); int64(vocabSize) > maxEntries {
+		return nil, fmt.Errorf("vocab size %d exceeds what the file can hold (%d)", vocabSize, maxEntries)
+	}
+
 	idx := &Index{
-		Dimension:   100, // GloVe 100d
+		Dimension:   dimension,
 		WordVectors: make(map[string][]float32, vocabSize),
 	}
 
@@ -92,6 +100,10 @@ func (idx *Index) LoadCommandEmbeddings(filepath string) error {
 		return fmt.Errorf("dimension mismatch: expected %d, got %d", idx.Dimension, dimension)
 	}
 
+	if maxEntries := remainingEntries(f, 8, 4*int64(dimension)); int64(numCommands) > maxEntries {
+		return fmt.Errorf("command count %d exceeds what the file can hold (%d)", numCommands, maxEntries)
+	}
+
 	// Read embeddings
 	idx.CmdEmbeddings = make([][]float32, numCommands)
 	for i := uint32(0); i < numCommands; i++ {
@@ -103,6 +115,16 @@ func (idx *Index) LoadCommandEmbeddings(filepath string) error {
 	}
 
 	return nil
+}
+
+// remainingEntries returns how many entries of at least entrySize bytes fit in f after a
+// header of headerSize bytes (0 if the size cannot be determined).
+func remainingEntries(f *os.File, headerSize, entrySize int64) int64 {
+	fi, err := f.Stat()
+	if err != nil || entrySize <= 0 || fi.Size() < headerSize {
+		return 0
+	}
+	return (fi.Size() - headerSize) / entrySize
 }
 
 // EmbedQuery computes an embedding for a query by averaging word vectors.
